@@ -130,7 +130,7 @@ func sampleOf(c *gen.Case, k int, api, want string) map[string]any {
 }
 
 func init() {
-	register(&Prop{ID: "C01", N: diffN, Quick: diffQuick, Assume: stdAssume,
+	register(&Prop{ID: "C01", Witness: true, N: diffN, Quick: diffQuick, Assume: stdAssume,
 		Rule:   "cases G(D,i): thorough = all i<N, quick = seed-chosen subset + witnesses of open findings; one evaluation = one API call compared with stdlib; distinct_nontrivial = distinct (pattern, haystack) pairs on which stdlib reports a match or the haystack was derived from a language sample of the pattern",
 		Triage: triageDiff,
 		Run: func(w *W, i uint64) {
@@ -162,7 +162,7 @@ func init() {
 			}
 		}})
 
-	register(&Prop{ID: "C02", N: diffN, Quick: diffQuick, Assume: stdAssume,
+	register(&Prop{ID: "C02", Witness: true, N: diffN, Quick: diffQuick, Assume: stdAssume,
 		Rule:   "cases G(D,i) as for C01; one evaluation = one first-match API call compared with stdlib (nil-ness and both offsets / text); distinct_nontrivial = distinct (pattern, haystack) pairs with a reference match",
 		Triage: triageDiff,
 		Run: func(w *W, i uint64) {
@@ -204,7 +204,7 @@ func init() {
 			}
 		}})
 
-	register(&Prop{ID: "C03", N: diffN, Quick: diffQuick, Assume: stdAssume,
+	register(&Prop{ID: "C03", Witness: true, N: diffN, Quick: diffQuick, Assume: stdAssume,
 		Rule:   "cases G(D,i) as for C01; one evaluation = one FindSubmatch-family call compared element-wise with stdlib, plus the length check 2*(NumSubexp()+1); distinct_nontrivial = distinct (pattern, haystack) pairs with a reference match and at least one capture group",
 		Triage: triageDiff,
 		Run: func(w *W, i uint64) {
@@ -231,7 +231,7 @@ func init() {
 			}
 		}})
 
-	register(&Prop{ID: "C04", N: diffN, Quick: diffQuick - 3000, Assume: stdAssume,
+	register(&Prop{ID: "C04", Witness: true, N: diffN, Quick: diffQuick - 3000, Assume: stdAssume,
 		Rule:   "cases G(D,i) as for C01, each with 5 limits n; one evaluation = one enumeration API call (FindAll family, Count, iterators incl. early break, AppendAllIndex with four dst shapes, Engine streaming/count) compared with the sequence stdlib's FindAll(Submatch)Index yields; distinct_nontrivial = distinct (pattern, haystack) pairs where the reference enumerates at least one match",
 		Triage: triageDiff,
 		Run: func(w *W, i uint64) {
@@ -271,7 +271,7 @@ func init() {
 			}
 		}})
 
-	register(&Prop{ID: "C08", N: diffN, Quick: diffQuick - 2000, Assume: stdAssume,
+	register(&Prop{ID: "C08", Witness: true, N: diffN, Quick: diffQuick - 2000, Assume: stdAssume,
 		Rule:   "cases G(D,i) as for C01, each with 4 generated templates and Split limits; one evaluation = one call of the nine replace/expand/split functions compared byte-wise with stdlib; distinct_nontrivial = distinct (pattern, haystack, template) triples where the reference finds a match",
 		Triage: triageDiff,
 		Run: func(w *W, i uint64) {
